@@ -233,6 +233,7 @@ def focused(tier):
                           features=["slotted"]))
     out += sched_preempt_chain(tier)
     out += ageing_priorities(tier)
+    out += per_class_per_node_reneging(tier)
     return out
 
 
